@@ -738,6 +738,79 @@ func main() {
 	writeDispatchFacts(filepath.Join(*out, "DispatchFacts.lean"), pk[0])
 	writeDecisions(filepath.Join(*out, "Decisions.lean"), pk[0])
 	writeSinkFacts(filepath.Join(*out, "SinkFacts.lean"), pk[4])
+	writeEncryptFacts(filepath.Join(*out, "EncryptFacts.lean"), pk[5])
+}
+
+// writeEncryptFacts: the filter's key material (Wrapper, HmacSalt, HmacInfo) is replaced as ONE unit, inside
+// one exclusive section of Filter.l, by Rotate and by a rotation payload; encrypt / hmacSha256 read it inside one section
+func writeEncryptFacts(path string, p *pkgInfo) {
+	oneSection := func(body *ast.BlockStmt, recv string, needAssign bool) bool {
+		if body == nil {
+			return false
+		}
+		src := exprString(p.fset, body)
+		if strings.Count(src, recv+".l.Lock()") != 1 || !strings.Contains(src, "defer "+recv+".l.Unlock()") || strings.Count(src, recv+".l.Unlock()") != 1 {
+			return false
+		}
+		// the section is opened before any key material is touched and no method of the filter is called
+		// inside (a nested Rotate / Process would take the lock again or split the replacement)
+		bad := false
+		ast.Inspect(body, func(n ast.Node) bool {
+			if c, ok := n.(*ast.CallExpr); ok {
+				if se, ok := c.Fun.(*ast.SelectorExpr); ok {
+					if id, ok := se.X.(*ast.Ident); ok && id.Name == recv {
+						bad = true
+					}
+				}
+			}
+			return true
+		})
+		if bad {
+			return false
+		}
+		if needAssign {
+			for _, f := range []string{"Wrapper", "HmacSalt", "HmacInfo"} {
+				i := strings.Index(src, recv+"."+f+" = ")
+				if i < 0 || i < strings.Index(src, recv+".l.Lock()") {
+					return false
+				}
+			}
+		}
+		return true
+	}
+	facts := map[string]bool{}
+	if fd := p.funcs["Filter.Rotate"]; fd != nil {
+		facts["rotateOneSection"] = oneSection(fd.Body, "ef", true)
+	}
+	if fd := p.funcs["Filter.Process"]; fd != nil {
+		for _, st := range fd.Body.List {
+			if ifs, ok := st.(*ast.IfStmt); ok && ifs.Init != nil && strings.Contains(exprString(p.fset, ifs.Init), "e.Payload.(RotateWrapper)") {
+				facts["rotationPayloadOneSection"] = oneSection(ifs.Body, "ef", true)
+				// consumed: the branch ends with `return nil, nil`
+				if n := len(ifs.Body.List); n > 0 {
+					facts["rotationPayloadConsumed"] = exprString(p.fset, ifs.Body.List[n-1]) == "return nil, nil"
+				}
+			}
+		}
+	}
+	for _, fn := range []string{"Filter.encrypt", "Filter.hmacSha256"} {
+		if fd := p.funcs[fn]; fd != nil {
+			facts[strings.TrimPrefix(fn, "Filter.")+"OneSection"] = oneSection(fd.Body, "ef", false)
+		}
+	}
+	order := []string{"rotateOneSection", "rotationPayloadOneSection", "rotationPayloadConsumed", "encryptOneSection", "hmacSha256OneSection"}
+	var sb strings.Builder
+	sb.WriteString("/- GENERATED by harness/cmd/gofacts from /repo's current source. Do not edit. -/\nnamespace Evl.Generated\n\nstructure EncryptFacts where\n")
+	for _, k := range order {
+		sb.WriteString("  " + k + " : Bool\n")
+	}
+	sb.WriteString("  deriving DecidableEq, Repr\n\ndef encryptFacts : EncryptFacts :=\n  { ")
+	var fs []string
+	for _, k := range order {
+		fs = append(fs, fmt.Sprintf("%s := %v", k, facts[k]))
+	}
+	sb.WriteString(strings.Join(fs, "\n    ") + " }\n\nend Evl.Generated\n")
+	os.WriteFile(path, []byte(sb.String()), 0o644)
 }
 
 // callerHoldsLock: unexported helpers whose doc comment says the caller holds the lock, or that
